@@ -357,7 +357,12 @@ class BatchAxis:
         if kk == "Path":
             return env.get(n.get("local")) if "local" in n else None
         if kk in ("Ref", "Cast") or (kk == "Unary"):
-            return self.ax(n["e"], env)
+            a0 = self.ax(n["e"], env)
+            if kk == "Cast" and a0 == "count" and (self.c.ty(n.get("t")) or "") in ("f32", "f64"):
+                # the number of rows of the batch turned into a float: it is about to enter the values that are computed
+                # (an extent, a loop bound or an index never needs that)
+                self.report("batch-size-in-arithmetic", n, "the number of rows of the batch is converted to a float and enters the computed values: a row's result then depends on how many rows are predicted with it")
+            return a0
         if kk == "Binary":
             a, b = self.ax(n["l"], env), self.ax(n["r"], env)
             if a == "count" or b == "count":
@@ -495,6 +500,8 @@ class BatchAxis:
                     return i
             return None
         argax = [self.ax(x, env) if strip(x).get("k") != "Closure" else None for x in n["args"]]
+        if d0 and d0["name"] in ("cast", "from_usize", "from_u64", "from_f64") and "count" in argax and len(n["args"]) == 1:
+            self.report("batch-size-in-arithmetic", n, "the number of rows of the batch is converted to a float (`%s`) and enters the computed values: a row's result then depends on how many rows are predicted with it" % d0["name"])
         argax = [None if v == "count" else v for v in argax]
         for x in n["args"]:
             if strip(x).get("k") == "Closure":
@@ -614,7 +621,11 @@ class BatchAxis:
                         f = strip(last["f"])
                         return f.get("k") == "Path" and ((self.c.dfn(f.get("def")) or {}).get("name") or "").startswith(("panic", "begin_panic", "assert_failed", "unreachable"))
                     return False
-                if not diverges(n["then"]) and not diverges(n.get("else")):
+                def works_on_batch(b):
+                    # an exit that first computes on the batch (`if n < 2048 { <plain scan>; return }`) is a branch, not an exit
+                    return b is not None and any(z.get("k") == "Path" and env.get(z.get("local")) in (0, 1, "rows") for z in walk(b))
+                pure_exit = (diverges(n["then"]) and not works_on_batch(n["then"])) or (diverges(n.get("else")) and not works_on_batch(n.get("else")))
+                if not pure_exit:
                     self.report("batch-size-branch", n["c"], "the computation branches on the number of rows of the batch, so a row's result depends on how many rows are predicted with it")
             for ch in (n["then"], n.get("else")):
                 if ch is not None:
@@ -770,6 +781,59 @@ def rule_composite(ctx):
                             res.sample({"fn": key, "rule": "keep the pair with the larger probability: `%s`" % r.e(body)[:80]})
                         else:
                             res.violate("%s : argmax-direction" % key, "the running arg-max does not keep the (label, probability) pair with the larger probability: `%s`" % r.e(body)[:100], fn_loc(fn, body["ln"]))
+        if not found:
+            # the pair rebuilt component-wise: `let label = if d.1 > c.1 { d.0 } else { c.0 }; (label, <probability>)`:
+            # both components must be selected from the same side under the same condition
+            for n in walk(fn["body"]):
+                if n.get("k") != "Closure" or len(n["params"]) != 1 or n["params"][0].get("k") != "Tuple":
+                    continue
+                names = [b["name"] for b in pat_bindings(n["params"][0])]
+                if len(names) != 2:
+                    continue
+                linits = {}
+                for y in walk(n["body"]):
+                    if y.get("k") == "LetStmt" and y.get("init") is not None and y["pat"].get("k") == "Bind":
+                        linits[y["pat"]["local"]] = y["init"]
+                tail = strip(n["body"])
+                while tail.get("k") == "Block" and tail.get("e") is not None:
+                    tail = strip(tail["e"])
+                if tail.get("k") != "Tup" or len(tail["es"]) != 2:
+                    continue
+
+                def classify(e):
+                    e = peel_refs(e)
+                    if e.get("k") == "Path" and e.get("local") in linits:
+                        e = peel_refs(linits[e["local"]])
+                    while e.get("k") == "MethodCall" and e["name"] in ("clone", "to_owned"):
+                        e = peel_refs(e["recv"])
+                    if e.get("k") == "If" and e.get("else") is not None:
+                        def side(b):
+                            b = strip(b)
+                            while b.get("k") == "Block" and b.get("e") is not None:
+                                b = strip(b["e"])
+                            b = peel_refs(b)
+                            while b.get("k") == "MethodCall" and b["name"] in ("clone", "to_owned"):
+                                b = peel_refs(b["recv"])
+                            if b.get("k") == "Field" and peel_refs(b["e"]).get("name") in names:
+                                return peel_refs(b["e"])["name"]
+                            return None
+                        return ("sel", r.e(e["c"]), side(e["then"]), side(e["else"]))
+                    if e.get("k") == "Field" and peel_refs(e["e"]).get("name") in names:
+                        return ("fixed", peel_refs(e["e"])["name"])
+                    if e.get("k") == "MethodCall" and e["name"] in ("max", "min"):
+                        return ("ext", e["name"])
+                    return ("other",)
+                a, b = classify(tail["es"][0]), classify(tail["es"][1])
+                if a[0] == "sel" and a[2] and a[3]:
+                    found = True
+                    if b[0] == "sel" and b[1:] == a[1:]:
+                        res.ok()
+                    elif b[0] == "fixed":
+                        res.violate("%s : argmax-partial-update" % key, "the label of the more probable member is kept, but the probability carried on is always `%s`'s: later members are compared with that member's probability, not with the incumbent's (with three or more members the label of a less probable one can win)" % b[1], fn_loc(fn, tail["ln"]))
+                    elif b[0] == "ext" and b[1] == "max":
+                        res.ok()
+                    else:
+                        res.undecided("%s : pair-rebuild" % key, "label and probability of the running pair are rebuilt in a way that was not classified (fail closed)", fn_loc(fn, tail["ln"]))
         if not found:
             # second idiom: a loop that overwrites (label slot, incumbent probability slot) under `candidate > incumbent`
             for n in walk(fn["body"]):
@@ -1030,4 +1094,5 @@ def rule_overwrite(ctx):
 
 
 def rules(tier):
-    return [rule_forms, rule_shape, rule_rowlocal, rule_noint, rule_composite, rule_overwrite]
+    from . import c13
+    return [rule_forms, rule_shape, rule_rowlocal, rule_noint, rule_composite, rule_overwrite, c13.rule_decision]
